@@ -2,7 +2,8 @@
    Subject: gen/Numeric_gen.v, regenerated from datacodec/{conversions,math,bigint,int,smallint,tinyint,varint,float,double,
    date,time,timestamp}.go on every run.  Statements only; proofs are in proofs/Numeric*.v. *)
 From Coq Require Import ZArith List String Bool.
-From GCNP Require Import base.GoInt base.GoNum gen.Numeric_gen proofs.NumericHelpers proofs.NumericMath.
+From GCNP Require Import base.GoInt base.GoNum gen.Numeric_gen model.NumWire proofs.NumericHelpers proofs.NumericMath
+  proofs.NumericSwitches proofs.NumericWire proofs.NumericVarint proofs.NumericFloats.
 Import ListNotations.
 Open Scope Z_scope.
 
@@ -45,6 +46,114 @@ Theorem C13_floorMod :
 Proof. exact floorMod_spec. Qed.
 Print Assumptions C13_floorMod.
 
+(* ---- type switches.  [oracle_contract O dec]: strconv.ParseInt / FormatInt and big.Int SetString / Text agree with the
+   denotation [dec] of decimal strings (stated in proofs/NumericSwitches.v).  For every switch of the generated table
+   (convertToInt64/32/16/8), every source constructor and every value of that Go type:
+     Ok (v, wasNil): wasNil exactly for nil pointers / untyped nil, v fits the CQL type, and v is the integer the source denotes;
+     every sized integer that fits is accepted unchanged; unsupported types fail; nil pointers of accepted types are NULL. *)
+Theorem C13_to_switches_exact :
+  forall O dec, oracle_contract O dec ->
+  forall name r f, In (name, r, f) (to_switches O) ->
+    (forall g, gv_wf g = true ->
+       match f g with
+       | Ok (v, wasNil) => wasNil = gv_isnil g /\ in_range r v = true /\ (wasNil = false -> gv_math dec g = Some v)
+       | Err => True
+       end) /\
+    (forall g x, gv_wf g = true -> gv_sized g = Some x -> in_range r x = true -> f g = Ok (x, false)) /\
+    f G_other = Err /\
+    Forall (fun g => f g = Ok (0, true)) accepted_nils.
+Proof. exact to_switches_exact. Qed.
+Print Assumptions C13_to_switches_exact.
+
+(* convertFromInt64/32/16/8: for every destination constructor: Ok only for a non-nil supported pointer, and then (when the
+   column is not NULL) what was stored is a value of the destination's Go type that denotes exactly val; nil pointer -> error *)
+Theorem C13_from_switches_exact :
+  forall O dec, oracle_contract O dec ->
+  forall name r f, In (name, r, f) (from_switches O) ->
+    (forall val wasNull d, in_range r val = true ->
+       match f val wasNull d with
+       | Ok st => dst_isnil d = false /\ d <> D_other /\
+                  (wasNull = false -> exists g, st = Some g /\ gv_wf g = true /\ gv_math dec g = Some val)
+       | Err => True
+       end /\ (dst_isnil d = true -> f val wasNull d = Err)) /\
+    (forall v w, f v w D_other = Err).
+Proof. exact from_switches_exact. Qed.
+Print Assumptions C13_from_switches_exact.
+
+(* varint: the *big.Int switches *)
+Theorem C13_convertToBigInt_exact :
+  forall O dec, oracle_contract O dec ->
+  (forall g, gv_wf g = true ->
+     match convertToBigInt O g with
+     | Ok (Some v) => gv_isnil g = false /\ gv_math dec g = Some v
+     | Ok None => gv_isnil g = true
+     | Err => True
+     end) /\ convertToBigInt O G_other = Err.
+Proof. exact convertToBigInt_exact. Qed.
+Print Assumptions C13_convertToBigInt_exact.
+
+Theorem C13_convertToBigInt_nils :
+  forall O, Forall (fun g => convertToBigInt O g = Ok None) (G_pbigint None :: accepted_nils).
+Proof. exact convertToBigInt_nils. Qed.
+Print Assumptions C13_convertToBigInt_nils.
+
+Theorem C13_convertFromBigInt_exact :
+  forall O dec, oracle_contract O dec ->
+  from_switch_exact O dec RAny (convertFromBigInt O) /\ (forall v w, convertFromBigInt O v w D_other = Err).
+Proof. exact convertFromBigInt_exact. Qed.
+Print Assumptions C13_convertFromBigInt_exact.
+
+(* ---- wire layer: fixed-width big-endian two's complement round trips on the whole range; wrong lengths are rejected *)
+Theorem C13_fixed_width_roundtrip :
+  (forall v, in_i 64 v = true -> readInt64 (writeInt64 v) = Ok (v, false)) /\
+  (forall v, in_i 32 v = true -> readInt32 (writeInt32 v) = Ok (v, false)) /\
+  (forall v, in_i 16 v = true -> readInt16 (writeInt16 v) = Ok (v, false)) /\
+  (forall v, in_i 8 v = true -> readInt8 (writeInt8 v) = Ok (v, false)) /\
+  (forall b, in_u 32 b = true -> readFloat32 (writeFloat32 b) = Ok (b, false)) /\
+  (forall b, in_u 64 b = true -> readFloat64 (writeFloat64 b) = Ok (b, false)).
+Proof.
+  exact (conj int64_wire_roundtrip (conj int32_wire_roundtrip (conj int16_wire_roundtrip (conj int8_wire_roundtrip
+        (conj float32_wire_roundtrip float64_wire_roundtrip))))).
+Qed.
+Print Assumptions C13_fixed_width_roundtrip.
+
+Theorem C13_fixed_width_lengths :
+  fixed_read_ok 8 readInt64 /\ fixed_read_ok 4 readInt32 /\ fixed_read_ok 2 readInt16 /\ fixed_read_ok 1 readInt8 /\
+  fixed_read_ok 4 readFloat32 /\ fixed_read_ok 8 readFloat64.
+Proof. exact fixed_reads_reject_wrong_length. Qed.
+Print Assumptions C13_fixed_width_lengths.
+
+(* varint bytes (hand model, model/NumWire.v): PARTIAL - every integer of the stated finite range, by kernel computation *)
+Theorem C13_varint_roundtrip_partial :
+  forall n, -70000 <= n <= 70000 ->
+  readBigInt (writeBigInt n) = Some n /\ Forall (fun b => 0 <= b < 256) (writeBigInt n).
+Proof. exact varint_roundtrip_partial. Qed.
+Print Assumptions C13_varint_roundtrip_partial.
+
+(* ---- floats: conversions are oracles with the contracts named as hypotheses; a narrowing / big.Float conversion is
+   accepted only when the oracle says it is exact *)
+Theorem C13_float64ToFloat32_exact :
+  forall (O : oracles) (V : Type) (val64 val32 : Z -> V),
+  (forall w, val64 (o_f32_to_f64 O w) = val32 w) ->
+  (forall a b, o_f64_eqb O a b = true -> val64 a = val64 b) ->
+  forall v w, float64ToFloat32 O v = Ok w -> val32 w = val64 v.
+Proof. exact float64ToFloat32_exact. Qed.
+Print Assumptions C13_float64ToFloat32_exact.
+
+Theorem C13_bigFloatToFloat64_exact :
+  forall (O : oracles) (V : Type) (val64 : Z -> V) (valbig : bigfloat -> V),
+  (forall f b, o_BigFloat_Float64 O f = (b, 0) -> val64 b = valbig f) ->
+  forall f b, bigFloatToFloat64 O f = Ok b -> val64 b = valbig f.
+Proof. exact bigFloatToFloat64_exact. Qed.
+Print Assumptions C13_bigFloatToFloat64_exact.
+
+Theorem C13_float64ToBigFloat_exact :
+  forall (O : oracles) (V : Type) (val64 : Z -> V) (valbig : bigfloat -> V),
+  (forall b, o_f64_isnan O b = false -> valbig (o_BigFloat_SetFloat64 O b) = val64 b) ->
+  forall b st, float64ToBigFloat O b = Ok st -> exists f, st = Some (G_bigfloat f) /\ valbig f = val64 b.
+Proof. exact float64ToBigFloat_exact. Qed.
+Print Assumptions C13_float64ToBigFloat_exact.
+
 (* non-vacuity *)
 Example C13_helpers_nonvacuous :
   (List.length helpers >= 50)%nat /\
@@ -52,3 +161,18 @@ Example C13_helpers_nonvacuous :
   int64ToInt16 32767 = Ok 32767 /\ int64ToInt16 32768 = Err /\ bigIntToUint8 256 = Err /\ bigIntToUint8 255 = Ok 255 /\
   uint64ToInt64 9223372036854775808 = Err.
 Proof. exact helpers_nonvacuous. Qed.
+
+Example C13_contract_satisfiable : oracle_contract O10 dec10.
+Proof. exact contract_satisfiable. Qed.
+
+Example C13_switches_nonvacuous :
+  convertToInt16 O10 (G_int64 32767) = Ok (32767, false) /\ convertToInt16 O10 (G_int64 32768) = Err /\
+  convertToInt16 O10 (G_string "-32768") = Ok (-32768, false) /\ convertToInt16 O10 (G_string "32768") = Err /\
+  convertFromInt64 O10 4294967301 false (D_pint32 false) = Err /\
+  convertFromInt64 O10 300 false (D_pint16 false) = Ok (Some (G_int16 300)) /\
+  (List.length (to_switches O10) = 4)%nat /\ (List.length (from_switches O10) = 4)%nat.
+Proof. repeat split; vm_compute; reflexivity. Qed.
+
+Example C13_wire_nonvacuous :
+  writeInt32 (-2) = [255; 255; 255; 254] /\ readInt32 [1; 2; 3] = Err /\ writeBigInt (-129) = [255; 127].
+Proof. repeat split; vm_compute; reflexivity. Qed.
